@@ -116,6 +116,31 @@ Theorem C02_call_fidelity : forall c U st sigs s (f : list dval -> list dval) ar
     /\ sresp_dec c U fuel s j = Ok (map vnorm (f (map vnorm args))).
 Proof. exact call_fidelity. Qed.
 
+(** MessagePackRpc (ignore_wrappers=True, either complex_as): [0, msgid, method, params] with
+    positional parameters enters the function with the sent arguments; the answer
+    [1, 0, nil, out_message] is the conventional one and decodes to the returned values.
+    A None parameter must be a nillable single one (or validation is off): every
+    parameter is on the wire. *)
+Theorem C02_rpc_request_fidelity : forall c U st msgid sigs s args fuel,
+  c_iw c = true ->
+  wf_universe (ext_universe U s) = true ->
+  find_sig sigs (sg_name s) = Some s ->
+  st_text_bin st = false ->
+  members_conf c (ext_universe U s) false (sg_params s) args = true ->
+  rpc_args_ok c (sg_params s) args ->
+  (vdepth (DObj (in_cid U) args) <= fuel)%nat ->
+  rpc_request c U fuel sigs (srpc_req c U st msgid s args) = SCall (map vnorm args).
+Proof. exact rpc_request_fidelity. Qed.
+
+Theorem C02_rpc_response_fidelity : forall c U s rets fuel,
+  c_iw c = true ->
+  wf_universe (ext_universe U s) = true ->
+  members_conf c (ext_universe U s) false (sg_results s) rets = true ->
+  (2 * vdepth (DObj (out_cid U) rets) + 1 <= fuel)%nat ->
+  rpc_response c U fuel s rets = Ok (srpc_resp c U spyne_style s rets)
+  /\ srpc_resp_dec c U fuel s (srpc_resp c U spyne_style s rets) = Ok (map vnorm rets).
+Proof. exact rpc_response_fidelity. Qed.
+
 (** ** the regions the guards exclude are genuinely refuted by the model (known findings) *)
 
 (** complex_as=list with ignore_wrappers=False: requests must carry the class-name keys,
@@ -196,3 +221,12 @@ Example C02_ex_call :
   /\ serve_request ex_mp ex_U 20 [ex_sig] (sreq ex_mp ex_U (mkstyle true false false) ex_sig ex_args_flat)
      = SCall ex_args_flat.
 Proof. vm_compute. repeat split. Qed.
+
+(* MessagePackRpc: [0, 7, 'f', [{..A..}, 7]] -> f(A(i=2**64, s='hi'), 7) -> [1, 0, nil, {b'fResult': {..}}] *)
+Example C02_ex_rpc :
+  rpc_args_ok ex_rpc (sg_params ex_sig) ex_args_flat
+  /\ rpc_request ex_rpc ex_U 20 [ex_sig] (srpc_req ex_rpc ex_U (mkstyle false false false) (JInt 7) ex_sig ex_args_flat)
+     = SCall ex_args_flat
+  /\ rpc_response ex_rpc ex_U 20 ex_sig ex_rets_flat = Ok (srpc_resp ex_rpc ex_U spyne_style ex_sig ex_rets_flat)
+  /\ srpc_resp_dec ex_rpc ex_U 20 ex_sig (srpc_resp ex_rpc ex_U spyne_style ex_sig ex_rets_flat) = Ok ex_rets_flat.
+Proof. vm_compute. repeat split; intros; discriminate. Qed.
